@@ -19,8 +19,8 @@ package spdxexp
 
 //@ typeinv node(n): (n.role == 0 || n.role == 1 || n.role == 2)
 //@   && (n.role == 0 ==> n.exp != nil && n.exp.left != nil && n.exp.right != nil && (n.exp.conjunction == "and" || n.exp.conjunction == "or"))
-//@   && (n.role == 2 ==> n.lic != nil)
-//@   && (n.role == 1 ==> n.ref != nil)
+//@   && (n.role == 2 ==> n.lic != nil && listedLic(n.lic.license) && ite(n.lic.hasException, listedExc(n.lic.exception), n.lic.exception == ""))
+//@   && (n.role == 1 ==> n.ref != nil && isIdName(n.ref.licenseRef) && ite(n.ref.hasDocumentRef, isIdName(n.ref.documentRef), n.ref.documentRef == ""))
 
 //@ pred leaf(n *node) = n != nil && n.role != 0
 //@ pred okAlt(s []*node) = len(s) >= 1 && forall k :: 0 <= k && k < len(s) ==> leaf(s[k])
@@ -107,6 +107,7 @@ package spdxexp
 
 //@ func (*tokenStream).parseExpression
 //@   requires okStream(t) && !isErr(t.err)
+//@   requires[C06,C07] okToks(t.tokens)
 //@   modifies t.index, t.err
 //@   ensures[C03] okStream(t)
 //@   ensures[C05,C01,C10] !isErr(t.err) <==> sExpr(elems(t.tokens), len(t.tokens), old(t.index)) >= 0
@@ -116,6 +117,7 @@ package spdxexp
 
 //@ func (*tokenStream).parseAnd
 //@   requires okStream(t) && !isErr(t.err)
+//@   requires[C06,C07] okToks(t.tokens)
 //@   modifies t.index, t.err
 //@   ensures[C03] okStream(t)
 //@   ensures[C05,C01,C10] !isErr(t.err) <==> sAnd(elems(t.tokens), len(t.tokens), old(t.index)) >= 0
@@ -125,6 +127,7 @@ package spdxexp
 
 //@ func (*tokenStream).parseAtom
 //@   requires okStream(t) && !isErr(t.err)
+//@   requires[C06,C07] okToks(t.tokens)
 //@   modifies t.index, t.err
 //@   ensures[C03] okStream(t)
 //@   ensures[C05,C01,C10] !isErr(t.err) <==> sAtom(elems(t.tokens), len(t.tokens), old(t.index)) >= 0
@@ -134,6 +137,7 @@ package spdxexp
 
 //@ func (*tokenStream).parseParenthesizedExpression
 //@   requires okStream(t) && !isErr(t.err)
+//@   requires[C06,C07] okToks(t.tokens)
 //@   modifies t.index, t.err
 //@   ensures[C03] okStream(t)
 //@   ensures[C05] !isOp(elems(t.tokens), len(t.tokens), old(t.index), "(") ==> result == nil && !isErr(t.err) && t.index == old(t.index)
@@ -161,6 +165,17 @@ package spdxexp
 //@ pred pend(e *expressionStream, orig string) = 0 <= e.index && e.index < len(e.expression) && 0 <= e.index + e.removed && e.index + e.removed + 1 <= len(orig) && e.expression[e.index:] == "+" + orig[e.index + e.removed + 1:]
 //@ pred rel(e *expressionStream, orig string) = syncd(e, orig) || pend(e, orig)
 
+// Well-formed token values (C06, C07): reference names consist of id characters; license / exception token values
+// are entries of the shipped lists (role 3: active or deprecated list, role 4: exception list).
+//@ pred listedLic(v string) = occc(ActiveSeq(), ActiveLen(), v) || (occc(DeprecatedSeq(), DeprecatedLen(), v) && !Contains(v, "+"))
+//@ pred listedExc(v string) = occc(ExceptionSeq(), ExceptionLen(), v)
+//@ fn isIdName(v string) bool
+//@ axiom forall v string {isIdName(v)} :: isIdName(v) <==> inRe(v, "idch+")
+//@ lemma[C06,C07] idNameHasNoPlus: forall v string {isIdName(v)} :: isIdName(v) ==> !Contains(v, "+")
+//@ pred okTokV(role int, value string) = (role == 1 || role == 2 ==> isIdName(value)) && (role == 3 ==> listedLic(value)) && (role == 4 ==> listedExc(value))
+//@ pred okTok(t *token) = okTokV(t.role, t.value)
+//@ pred okToks(ts []token) = forall k :: 0 <= k && k < len(ts) ==> okTokV(ts[k].role, ts[k].value)
+
 // Operators (C05): the first of WITH AND OR ( ) : + that prefixes the rest of the text; '+' must not follow a space.
 //@ pred firstOp(r string) = ite(HasPrefix(r, "WITH"), "WITH", ite(HasPrefix(r, "AND"), "AND", ite(HasPrefix(r, "OR"), "OR", ite(HasPrefix(r, "("), "(", ite(HasPrefix(r, ")"), ")", ite(HasPrefix(r, ":"), ":", ite(HasPrefix(r, "+"), "+", "")))))))
 //@ pred spaceBefore(e *expressionStream) = e.index >= 1 && e.expression[e.index - 1:e.index] == " "
@@ -170,10 +185,12 @@ package spdxexp
 //@   ghostlet orig = expression
 //@   defines[C05] !isErr(result1) <==> Lexable(expression)
 //@   defines[C05] !isErr(result1) ==> len(result0) == TokLen(expression) && elems(result0) == TokSeq(expression)
+//@   ensures[C06,C07] !isErr(result1) ==> okToks(result0)
 //@   loop 0:
 //@     invariant[C03] okExp(exp) && fresh(exp)
 //@     invariant[C03] tokens == nil || fresh(tokens)
 //@     invariant[C05,C15] rel(exp, orig) && !isErr(exp.err)
+//@     invariant[C06,C07] okToks(tokens)
 //@ end
 
 //@ func (*expressionStream).parseToken
@@ -183,6 +200,7 @@ package spdxexp
 //@   modifies exp.index, exp.err, exp.expression, exp.removed
 //@   ensures[C03] okExp(exp)
 //@   ensures[C05,C15] !isErr(exp.err) ==> rel(exp, orig) && exp.index > old(exp.index) - 9
+//@   ensures[C06,C07] !isErr(exp.err) && result != nil ==> okTok(result)
 //@ end
 
 //@ func (*expressionStream).readOperator
@@ -214,6 +232,7 @@ package spdxexp
 //@   ensures[C03] okExp(exp)
 //@   ensures[C03] exp.index == old(exp.index) + len(result)
 //@   ensures[C03] isErr(exp.err) <==> (isErr(old(exp.err)) || len(result) == 0)
+//@   ensures[C06,C07] len(result) > 0 ==> inRe(result, "idch+")
 //@   ensures[C05,C15] syncd(exp, orig) && result == exp.expression[old(exp.index):exp.index] && result == orig[old(exp.index) + exp.removed:exp.index + exp.removed]
 //@   assert[C15] call fmt.Sprintf#0: 0 <= arg1 && arg1 <= len(orig) && arg1 == exp.index + exp.removed
 //@ end
@@ -226,6 +245,7 @@ package spdxexp
 //@   ensures[C03] okExp(exp)
 //@   ensures[C03] result == nil && !isErr(exp.err) ==> exp.index == old(exp.index)
 //@   ensures[C05,C15] !isErr(exp.err) ==> syncd(exp, orig) && exp.index >= old(exp.index)
+//@   ensures[C06,C07] result != nil ==> result.role == 1 && okTok(result)
 //@ end
 
 //@ func (*expressionStream).readLicenseRef
@@ -236,6 +256,7 @@ package spdxexp
 //@   ensures[C03] okExp(exp)
 //@   ensures[C03] result == nil && !isErr(exp.err) ==> exp.index == old(exp.index)
 //@   ensures[C05,C15] !isErr(exp.err) ==> syncd(exp, orig) && exp.index >= old(exp.index)
+//@   ensures[C06,C07] result != nil ==> result.role == 2 && okTok(result)
 //@ end
 
 //@ func (*expressionStream).readLicense
@@ -245,6 +266,7 @@ package spdxexp
 //@   modifies exp.index, exp.err, exp.expression, exp.removed
 //@   ensures[C03] okExp(exp)
 //@   ensures[C03] result != nil || isErr(exp.err)
+//@   ensures[C06,C07] result != nil ==> okTok(result)
 //@   ensures[C05,C15] !isErr(exp.err) ==> rel(exp, orig) && exp.index > old(exp.index) - 9
 //@   assert[C15] call fmt.Sprintf#0: 0 <= arg2 && arg2 + len(arg1) <= len(orig) && orig[arg2:arg2 + len(arg1)] == arg1
 //@ end
@@ -253,6 +275,7 @@ package spdxexp
 //@   ghostparam orig string
 //@   requires okExp(exp) && len(license) <= exp.index
 //@   requires[C05,C15] syncd(exp, orig) && exp.expression[exp.index - len(license):exp.index] == license && len(license) >= 1 && exp.index + exp.removed >= len(license)
+//@   requires[C06,C07] isIdName(license)
 //@   modifies exp.index, exp.expression, exp.removed
 //@   ensures[C03] okExp(exp)
 //@   ensures[C03] result == nil ==> exp.expression == old(exp.expression) && exp.index == old(exp.index) && exp.removed == old(exp.removed)
@@ -262,6 +285,7 @@ package spdxexp
 //@   ensures[C05,C08] result != nil && normCase(license, old(npAt(exp))) != 3 && normCase(license, old(npAt(exp))) != 4 ==> exp.index == old(exp.index) && exp.expression == old(exp.expression) && exp.removed == old(exp.removed)
 //@   ensures[C05,C08] result != nil && normCase(license, old(npAt(exp))) == 3 ==> exp.index == old(exp.index) + 1 && exp.expression == old(exp.expression) && exp.removed == old(exp.removed)
 //@   ensures[C05,C08] result != nil && normCase(license, old(npAt(exp))) == 4 ==> exp.index == old(exp.index) - 9 && exp.removed == old(exp.removed) + 8 && pend(exp, orig)
+//@   ensures[C06,C07] result != nil ==> okTok(result)
 //@   ensures[C09,C06] result != nil ==> (result.role == 3 || result.role == 4) && (occc(ActiveSeq(), ActiveLen(), result.value) || occc(ExceptionSeq(), ExceptionLen(), result.value) || occc(DeprecatedSeq(), DeprecatedLen(), result.value))
 //@ end
 
@@ -373,6 +397,8 @@ package spdxexp
 //@ axiom forall x string {EqualFold(x, x)} :: EqualFold(x, x)
 //@ axiom forall x string, y string {EqualFold(x, y)} :: EqualFold(x, y) ==> EqualFold(y, x)
 //@ axiom forall x string, y string, z string {EqualFold(x, y), EqualFold(y, z)} :: EqualFold(x, y) && EqualFold(y, z) ==> EqualFold(x, z)
+// '+' has no case-folding partner: strings equal under simple folding contain it or not together (assumed about strings.EqualFold)
+//@ axiom forall x string, y string {EqualFold(x, y)} :: EqualFold(x, y) ==> (Contains(x, "+") <==> Contains(y, "+"))
 
 // Properties of the matching rule named in C02, proved from the definitions above (pure SMT, no code involved).
 //@ lemma[C02] licMatchSymmetric: forall a Tree, b Tree :: licMatch(a, b) <==> licMatch(b, a)
@@ -384,13 +410,27 @@ package spdxexp
 // Equal canonical strings denote equal terms (used by the set reading of the allowed list, C07, and of the
 // extracted list, C06): ids, exception ids and reference names consist of id characters, a license id never starts
 // with a reference prefix, and absent parts are empty.
-//@ pred wfLeafT(t Tree) = ite(isTLic(t), inRe(tlId(t), "idch+") && !HasPrefix(tlId(t), "LicenseRef-") && !HasPrefix(tlId(t), "DocumentRef-") && ite(tlHasExc(t), inRe(tlExc(t), "idch+"), tlExc(t) == ""), isTRef(t) && inRe(trRef(t), "idch+") && ite(trHasDoc(t), inRe(trDoc(t), "idch+"), trDoc(t) == ""))
+//@ fn isLicId(v string) bool
+//@ axiom forall v string {isLicId(v)} :: isLicId(v) <==> (inRe(v, "idch+") && !HasPrefix(v, "LicenseRef-") && !HasPrefix(v, "DocumentRef-"))
+// table hypotheses (ground-evaluated on every run: idsAreIDCH, noRefPrefix): listed ids consist of id characters (a
+// deprecated id may end in '+': such an entry is never a token value) and none starts with a reference prefix
+//@ axiom forall k int {ActiveSeq()[k]} :: 0 <= k && k < ActiveLen() ==> isLicId(ActiveSeq()[k])
+//@ axiom forall k int {DeprecatedSeq()[k]} :: 0 <= k && k < DeprecatedLen() && !Contains(DeprecatedSeq()[k], "+") ==> isLicId(DeprecatedSeq()[k])
+//@ axiom forall k int {ExceptionSeq()[k]} :: 0 <= k && k < ExceptionLen() ==> isIdName(ExceptionSeq()[k])
+//@ pred wfLeafT(t Tree) = ite(isTLic(t), isLicId(tlId(t)) && ite(tlHasExc(t), isIdName(tlExc(t)), tlExc(t) == ""), isTRef(t) && isIdName(trRef(t)) && ite(trHasDoc(t), isIdName(trDoc(t)), trDoc(t) == ""))
+//@ fn wfLeaf(t Tree) bool
+//@ axiom forall t Tree {wfLeaf(t)} :: wfLeaf(t) <==> wfLeafT(t)
+// a leaf whose ids are listed (the representation invariant of nodes) is well-formed in this sense
+//@ lemma[C06,C07] listedLeafIsWf: forall t Tree {wfLeaf(t)} :: (isTLic(t) && listedLic(tlId(t)) && ite(tlHasExc(t), listedExc(tlExc(t)), tlExc(t) == "")) || (isTRef(t) && isIdName(trRef(t)) && ite(trHasDoc(t), isIdName(trDoc(t)), trDoc(t) == "")) ==> wfLeaf(t)
+//@ pred wfLeafTs(t Tree) = ite(isTLic(t), inRe(tlId(t), "idch+") && !HasPrefix(tlId(t), "LicenseRef-") && !HasPrefix(tlId(t), "DocumentRef-") && ite(tlHasExc(t), inRe(tlExc(t), "idch+"), tlExc(t) == ""), isTRef(t) && inRe(trRef(t), "idch+") && ite(trHasDoc(t), inRe(trDoc(t), "idch+"), trDoc(t) == ""))
+//@ lemma[C06,C07] wfLeafBridge: forall t Tree {wfLeaf(t)} :: wfLeaf(t) ==> wfLeafTs(t)
 // (string lemmas: decided by cvc5 in seconds to a minute; they involve no code, so they are run in the thorough tier only)
-//@ lemma[C06,C07,thorough] reconInjectiveLicLic00: forall a Tree, b Tree :: isTLic(a) && isTLic(b) && wfLeafT(a) && wfLeafT(b) && !tlHasExc(a) && !tlHasExc(b) && reconT(a) == reconT(b) ==> a == b
-//@ lemma[C06,C07,thorough] reconInjectiveLicLic10: forall a Tree, b Tree :: isTLic(a) && isTLic(b) && wfLeafT(a) && wfLeafT(b) && tlHasExc(a) && !tlHasExc(b) ==> reconT(a) != reconT(b)
-//@ lemma[C06,C07,thorough] reconInjectiveLicLic11: forall a Tree, b Tree :: isTLic(a) && isTLic(b) && wfLeafT(a) && wfLeafT(b) && tlHasExc(a) && tlHasExc(b) && reconT(a) == reconT(b) ==> a == b
-//@ lemma[C06,C07,thorough] reconInjectiveRefRef: forall a Tree, b Tree :: isTRef(a) && isTRef(b) && wfLeafT(a) && wfLeafT(b) && reconT(a) == reconT(b) ==> a == b
-//@ lemma[C06,C07,thorough] reconInjectiveLicRef: forall a Tree, b Tree :: isTLic(a) && isTRef(b) && wfLeafT(a) && wfLeafT(b) ==> reconT(a) != reconT(b)
+//@ lemma[C06,C07,thorough] reconInjectiveLicLic00: forall a Tree, b Tree {wfLeaf(a), wfLeaf(b)} :: isTLic(a) && isTLic(b) && wfLeafTs(a) && wfLeafTs(b) && !tlHasExc(a) && !tlHasExc(b) && reconT(a) == reconT(b) ==> a == b
+//@ lemma[C06,C07,thorough] reconInjectiveLicLic10: forall a Tree, b Tree {wfLeaf(a), wfLeaf(b)} :: isTLic(a) && isTLic(b) && wfLeafTs(a) && wfLeafTs(b) && tlHasExc(a) && !tlHasExc(b) ==> reconT(a) != reconT(b)
+//@ lemma[C06,C07,thorough] reconInjectiveLicLic11: forall a Tree, b Tree {wfLeaf(a), wfLeaf(b)} :: isTLic(a) && isTLic(b) && wfLeafTs(a) && wfLeafTs(b) && tlHasExc(a) && tlHasExc(b) && reconT(a) == reconT(b) ==> a == b
+//@ lemma[C06,C07,thorough] reconInjectiveRefRef: forall a Tree, b Tree {wfLeaf(a), wfLeaf(b)} :: isTRef(a) && isTRef(b) && wfLeafTs(a) && wfLeafTs(b) && reconT(a) == reconT(b) ==> a == b
+//@ lemma[C06,C07,thorough] reconInjectiveLicRef: forall a Tree, b Tree {wfLeaf(a), wfLeaf(b)} :: isTLic(a) && isTRef(b) && wfLeafTs(a) && wfLeafTs(b) ==> reconT(a) != reconT(b)
+//@ lemma[C06,C07] reconInjective: forall a Tree, b Tree {wfLeaf(a), wfLeaf(b)} :: wfLeaf(a) && wfLeaf(b) && reconT(a) == reconT(b) ==> a == b
 //@ lemma[C02,C11] plusStaysInFamily: forall a Tree, b Tree :: licMatch(a, b) && tlId(a) != tlId(b) ==> sameFam(tlId(a), tlId(b))
 //@ lemma[C11] plusReachesLaterVersions: forall a Tree, b Tree :: isTLic(a) && isTLic(b) && excOK(a, b) && tlPlus(a) && !tlPlus(b) && sameFam(tlId(a), tlId(b)) ==> (licMatch(a, b) <==> (tlId(a) == tlId(b) || Ver(simp(tlId(b))) >= Ver(simp(tlId(a)))))
 
@@ -484,12 +524,39 @@ package spdxexp
 // Ptree(s): the tree value of parse(s) in terms of the token sequence of s and the reference grammar.
 //@ pred Ptree(s string) = tExpr(TokSeq(s), TokLen(s), 0)
 
+// coveredL(t, L): some entry of the allowed LIST denotes a term that matches t - an existential over the entries, hence
+// a function of the SET of terms the list denotes (opaque, with Skolem witness covLw; these axioms define it)
+//@ fn covLc(t Tree, c seq[string], n int) bool
+//@ fn covLw(t Tree, c seq[string], n int) int
+//@ axiom forall t Tree, c seq[string], n int {covLc(t, c, n)} :: covLc(t, c, n) ==> 0 <= covLw(t, c, n) && covLw(t, c, n) < n && matchT(t, Ptree(c[covLw(t, c, n)]))
+//@ axiom forall t Tree, c seq[string], n int, k int {covLc(t, c, n), c[k]} :: 0 <= k && k < n && matchT(t, Ptree(c[k])) ==> covLc(t, c, n)
+//@ pred coveredL(t Tree, l []string) = covLc(t, elems(l), len(l))
+
+// The verdict as a closed function of the expression tree and the allowed list: semL is sem with 'covered' = coveredL.
+//@ def semL(t Tree, c seq[string], n int) bool = ite(isTNode(t), ite(tnConj(t) == "and", semL(tnL(t), c, n) && semL(tnR(t), c, n), semL(tnL(t), c, n) || semL(tnR(t), c, n)), covLc(t, c, n))
+//@ lemma[C07,C01,induct] semIsSemL: forall c seq[string], n int, t Tree {semL(t, c, n)} :: (forall u Tree {m(u)} :: m(u) <==> covLc(u, c, n)) ==> (sem(t) <==> semL(t, c, n))
+// The allowed list behaves as a set and the verdict is monotone in it (C07): inLc(y, c, n): some entry of c[0:n) denotes
+// the term y; denotesSubset(c1, n1, c2, n2): every term denoted by an entry of the first list is denoted by an entry
+// of the second (true for permutations, repetitions, re-spellings with the same term, and extensions).
+//@ fn inLc(y Tree, c seq[string], n int) bool
+//@ fn inLw(y Tree, c seq[string], n int) int
+//@ axiom forall y Tree, c seq[string], n int {inLc(y, c, n)} :: inLc(y, c, n) ==> 0 <= inLw(y, c, n) && inLw(y, c, n) < n && Ptree(c[inLw(y, c, n)]) == y
+//@ axiom forall y Tree, c seq[string], n int, k int {inLc(y, c, n), c[k]} :: 0 <= k && k < n && Ptree(c[k]) == y ==> inLc(y, c, n)
+//@ pred denotesSubset(c1 seq[string], n1 int, c2 seq[string], n2 int) = forall k :: 0 <= k && k < n1 ==> inLc(Ptree(c1[k]), c2, n2)
+//@ lemma[C07] coveredMonotone: forall t Tree, c1 seq[string], n1 int, c2 seq[string], n2 int {covLc(t, c1, n1), covLc(t, c2, n2)} :: denotesSubset(c1, n1, c2, n2) && covLc(t, c1, n1) ==> covLc(t, c2, n2)
+//@ lemma[C07,induct] verdictMonotone: forall c1 seq[string], n1 int, c2 seq[string], n2 int, t Tree {semL(t, c1, n1), semL(t, c2, n2)} :: denotesSubset(c1, n1, c2, n2) && semL(t, c1, n1) ==> semL(t, c2, n2)
+//@ lemma[C07] verdictOfSet: forall c1 seq[string], n1 int, c2 seq[string], n2 int, t Tree {semL(t, c1, n1), semL(t, c2, n2)} :: denotesSubset(c1, n1, c2, n2) && denotesSubset(c2, n2, c1, n1) ==> (semL(t, c1, n1) <==> semL(t, c2, n2))
+
 //@ func Satisfies
 //@   ghostparam x Tree
 //@   ghostparam s string
 //@   modifies nothing
 //@   assume call (*node).expand#0: forall t Tree {m(t)} :: m(t) <==> covered(t, allowedNodes)
+//@   assert[C07,scoped] call sortAndDedup#0: seedBefore: forall k {allowedList[k]} :: 0 <= k && k < len(allowedNodes) ==> occursTR(allowedNodes, 0, len(allowedNodes), allowedNodes[k].tree)
+//@   assert[C07,scoped] after sortAndDedup#0: sameSet: forall t Tree :: covered(t, allowedNodes) <==> coveredL(t, allowedList)
 //@   ensures[C01,C10] !isErr(result1) ==> (result0 <==> sem(Ptree(testExpression)))
+//@   ensures[C07] verdictOfTheSet: !isErr(result1) ==> forall t Tree {m(t)} :: m(t) <==> coveredL(t, allowedList)
+//@   ensures[C07,C01] verdictIsSemL: !isErr(result1) ==> (result0 <==> semL(Ptree(testExpression), elems(allowedList), len(allowedList)))
 //@   loop 0:
 //@     invariant[C01,C10] $i <= len(expandedExpression) && forall k :: 0 <= k && k < $i ==> !all(expandedExpression[k])
 //@   ensures[C04] isErr(result1) <==> (!V(testExpression) || len(allowedList) == 0 || exists k :: 0 <= k && k < len(allowedList) && (!V(allowedList[k]) || K(allowedList[k])))
@@ -647,19 +714,38 @@ package spdxexp
 //@ axiom forall c seq[*node], lo int, hi int, T seq[Tree], s string, k int {orc(c, lo, hi, T, s), c[k]} :: lo <= k && k < hi && reconT(T[c[k]]) == s ==> orc(c, lo, hi, T, s)
 //@ pred occursR(l []*node, lo int, hi int, s string) = orc(elems(l), lo, hi, fieldHeap("node", "tree"), s)
 
-// The in-place sort and compaction keep, in the full-length slice, exactly the canonical strings that were there
-// (C07: the allowed list behaves as a set; Satisfies keeps using the full-length slice).  s is a ghost parameter.
+// occursTR(nodes, lo, hi, y): some node of nodes[lo:hi) denotes the term y
+//@ fn otc(c seq[*node], lo int, hi int, T seq[Tree], y Tree) bool
+//@ fn otw(c seq[*node], lo int, hi int, T seq[Tree], y Tree) int
+//@ axiom forall c seq[*node], lo int, hi int, T seq[Tree], y Tree {otc(c, lo, hi, T, y)} :: otc(c, lo, hi, T, y) ==> lo <= otw(c, lo, hi, T, y) && otw(c, lo, hi, T, y) < hi && T[c[otw(c, lo, hi, T, y)]] == y
+//@ axiom forall c seq[*node], lo int, hi int, T seq[Tree], y Tree, k int {otc(c, lo, hi, T, y), c[k]} :: lo <= k && k < hi && T[c[k]] == y ==> otc(c, lo, hi, T, y)
+//@ pred occursTR(l []*node, lo int, hi int, y Tree) = otc(elems(l), lo, hi, fieldHeap("node", "tree"), y)
+
+// The in-place sort and compaction keep, in the full-length slice, exactly the canonical strings - and, since equal
+// canonical strings denote equal terms (lemma reconInjective), exactly the terms - that were there (C07: the allowed
+// list behaves as a set; Satisfies keeps using the full-length slice).  s and y are ghost parameters.
 //@ func sortAndDedup
 //@   ghostparam s string
+//@   ghostparam y Tree
 //@   requires allLeaves(nodes)
 //@   modifies arr(nodes)
 //@   ensures[C03] allLeaves(nodes)
 //@   ensures[C07,C01] occursR(nodes, 0, len(nodes), s) <==> old(occursR(nodes, 0, len(nodes), s))
+//@   ensures[C07,scoped] sameTerms: occursTR(nodes, 0, len(nodes), y) <==> old(occursTR(nodes, 0, len(nodes), y))
+//@   ensures[C07,scoped] keptAreOld: forall j {nodes[j]} :: 0 <= j && j < len(nodes) ==> otc(old(elems(nodes)), 0, len(nodes), fieldHeap("node", "tree"), nodes[j].tree)
 //@   loop 0:
 //@     invariant[C03] 1 <= prev && prev <= curr && curr <= len(nodes) && allLeaves(nodes)
 //@     invariant[C07,C01] (occursR(nodes, 0, prev, s) || occursR(nodes, curr, len(nodes), s)) <==> old(occursR(nodes, 0, len(nodes), s))
 //@     invariant[C07,C01] reconT(nodes[prev - 1].tree) == reconT(nodes[curr - 1].tree)
 //@     invariant[C07,C01] occursR(nodes, 0, len(nodes), s) ==> old(occursR(nodes, 0, len(nodes), s))
+//@     invariant[C07] (occursTR(nodes, 0, prev, y) || occursTR(nodes, curr, len(nodes), y)) <==> old(occursTR(nodes, 0, len(nodes), y))
+//@     invariant[C07] nodes[prev - 1].tree == nodes[curr - 1].tree
+//@     invariant[C07] forall j {nodes[j]} :: 0 <= j && j < len(nodes) ==> otc(old(elems(nodes)), 0, len(nodes), fieldHeap("node", "tree"), nodes[j].tree)
+//@     invariant[C07] occursTR(nodes, 0, len(nodes), y) ==> old(occursTR(nodes, 0, len(nodes), y))
+//@   assert[C07] after (*node).reconstructedLicenseString#1: leafWf: wfLeaf(nodes[curr - 1].tree) && wfLeaf(nodes[curr].tree)
+//@   assert[C07] after (*node).reconstructedLicenseString#1: sameTerm: reconT(nodes[curr - 1].tree) == reconT(nodes[curr].tree) ==> nodes[curr - 1].tree == nodes[curr].tree
+//@   assert[C07] after (*node).reconstructedLicenseString#1: splitRangeT: occursTR(nodes, curr, len(nodes), y) <==> (nodes[curr].tree == y || occursTR(nodes, curr + 1, len(nodes), y))
+//@   assert[C07] after (*node).reconstructedLicenseString#1: lastKeptT: occursTR(nodes, 0, prev, y) || nodes[prev - 1].tree != y
 //@   assert[C07,C01] after (*node).reconstructedLicenseString#1: splitRange: occursR(nodes, curr, len(nodes), s) <==> (reconT(nodes[curr].tree) == s || occursR(nodes, curr + 1, len(nodes), s))
 //@   assert[C07,C01] after (*node).reconstructedLicenseString#1: lastKept: occursR(nodes, 0, prev, s) || reconT(nodes[prev - 1].tree) != s
 //@ end
